@@ -232,8 +232,8 @@ def _replay_chunk(args):
             fn = getattr(m, p['fns'][0]['name'])
             conv = {}
             for o in opts:
-                if o.get('only_lists') and not p.get('lists'):
-                    conv[o['name']] = None
+                if (o.get('only_lists') and not p.get('lists')) or (o.get('every') and pid % o['every']):
+                    conv[o['name']] = None       # this option set is exercised on a slice of the batch only
                     continue
                 if record_namer:
                     current['pid'] = pid
